@@ -12,7 +12,7 @@ REQUIRED_MONITORS = ["labels@SC_apply(function)", "labels@SC_apply(inside SSIcov
                      "labels@SC_apply(inside SSIcov_MS.run)", "labels@SC_apply(inside pLSCF_MS.run)", "purity@SC_apply", "result.Lab==labels of final tables"]
 ALL_STATES = ["stable", "fails fn only", "fails xi only", "fails MAC only", "fails several", "prev column empty", "NaN pole", "below ordmin", "first column",
               "above ordmax", "nearest neighbour is not the same row"]
-REQUIRED_STATES = ["tolerance dictionary in another key order", "ordmin = ordmax", "tolerances 1e-6..1e-7 on small damping / frequency", "run with covariance criterion", "stable", "fails fn only", "fails xi only", "fails MAC only", "prev column empty", "NaN pole", "below ordmin", "first column",
+REQUIRED_STATES = ["mode shapes with an exact zero in the first channel", "a tolerance of exactly zero through the classes", "tolerance dictionary in another key order", "ordmin = ordmax", "tolerances 1e-6..1e-7 on small damping / frequency", "run with covariance criterion", "stable", "fails fn only", "fails xi only", "fails MAC only", "prev column empty", "NaN pole", "below ordmin", "first column",
                    "nearest neighbour is not the same row"]
 RULE = ("pole tables up to 40 orders x 12 rows with random / structured NaN patterns, per-column row shuffles, duplicates and close frequencies, "
         "complex shapes and perturbations straddling each tolerance; every cell's label compared with an independent model (nearest finite "
@@ -164,6 +164,12 @@ def make_table(rng, structured):
         P0 = rng.standard_normal((nr, nch)) + 1j * rng.standard_normal((nr, nch))
         Phi = P0[:, None, :] + rng.choice([1e-3, 0.1, 0.5], size=(nr, no, 1)) * (rng.standard_normal((nr, no, nch)) + 1j * rng.standard_normal((nr, no, nch)))
     Xi = np.abs(Xi) + (0.0 if make_table.tight else 1e-4)
+    make_table.zero_first = False
+    if rng.random() < 0.2:
+        # the first sensor sits on a node of some modes: an exact zero in channel 0 (the MAC does not care which channel it is)
+        rows0 = rng.random(nr) < 0.5
+        Phi[rows0, :, 0] = 0.0
+        make_table.zero_first = bool(rows0.any())
     mask = rng.random((nr, no)) < rng.choice([0, 0.2, 0.6])
     if rng.random() < 0.4:
         mask[:, int(rng.integers(0, no))] = True
@@ -193,6 +199,8 @@ def run_tables(ctx, rng, structured):
         ctx.state("ordmin = ordmax")
     if make_table.tight:
         ctx.state("tolerances 1e-6..1e-7 on small damping / frequency")
+    if make_table.zero_first:
+        ctx.state("mode shapes with an exact zero in the first channel")
     args = (Fn, Xi, Phi, ordmin, ordmax, step, efn, exi, ephi)
     copies = (Fn.copy(), Xi.copy(), Phi.copy())
     L = G_.SC_apply(*args)
@@ -223,6 +231,10 @@ def run_inside(ctx, rng):
     nch = int(rng.integers(4, 6))
     data, *_ = gen.sim_response(rng, nch, int(rng.integers(3000, 6000)), 100.0, m=3, complex_modes=bool(rng.integers(0, 2)))
     sc = dict(err_fn=float(rng.choice([0.005, 0.01, 0.03])), err_xi=float(rng.choice([0.05, 0.2])), err_phi=float(rng.choice([0.02, 0.05])))
+    if rng.random() < 0.35:
+        # a tolerance of exactly 0: no difference is ever below it, so nothing may be labelled stable
+        sc[str(rng.choice(list(sc)))] = 0.0
+        ctx.state("a tolerance of exactly zero through the classes")
     if rng.random() < 0.5:
         # the tolerances are named: a dictionary written in another key order means the same
         sc = {k: sc[k] for k in [str(x) for x in rng.permutation(list(sc))]}
